@@ -70,14 +70,17 @@ pub mod sync {
 
     // -------------------------------------------------------------- Barrier
 
-    /// Model of `std::sync::Barrier`: one AcqRel arrival RMW per thread; the last
-    /// arrival resets the count, bumps the generation (Release) and wakes the
-    /// others, who re-check the generation (Acquire) around a private `Notify`.
+    /// Model of `std::sync::Barrier`. One AcqRel RMW per arrival hands out a
+    /// ticket (generation = ticket / n). The last arrival of a generation
+    /// publishes `generation + 1` (Release) and wakes that generation's waiters;
+    /// a waiter blocks on a private `Notify` and re-checks the published
+    /// generation (Acquire), which absorbs spurious wake-ups. Every arrival thus
+    /// happens-before every departure of its generation, as with std's barrier.
     pub struct Barrier {
         n: usize,
         arrivals: loom::sync::atomic::AtomicUsize,
         generation: loom::sync::atomic::AtomicUsize,
-        waiters: ::std::sync::Mutex<Vec<::std::sync::Arc<loom::sync::Notify>>>,
+        waiters: ::std::sync::Mutex<Vec<(usize, ::std::sync::Arc<loom::sync::Notify>)>>,
     }
 
     pub struct BarrierWaitResult(bool);
@@ -110,27 +113,30 @@ pub mod sync {
                 return BarrierWaitResult(true);
             }
 
-            let my_gen = self.generation.load(Acquire);
-            let me = ::std::sync::Arc::new(loom::sync::Notify::new());
-            self.waiters.lock().unwrap().push(me.clone());
-
-            let arrived = self.arrivals.fetch_add(1, AcqRel) + 1;
-            let leader = arrived == self.n;
+            // The scheduler can only switch threads at loom operations, so the
+            // bookkeeping that follows the RMW is atomic with it.
+            let ticket = self.arrivals.fetch_add(1, AcqRel);
+            let my_gen = ticket / self.n;
+            let leader = ticket % self.n == self.n - 1;
             if leader {
-                self.arrivals.store(0, Relaxed);
-                let others: Vec<_> = {
+                let mine: Vec<_> = {
                     let mut w = self.waiters.lock().unwrap();
-                    ::std::mem::take(&mut *w)
+                    let (mine, rest): (Vec<_>, Vec<_>) = w.drain(..).partition(|(g, _)| *g == my_gen);
+                    *w = rest;
+                    mine
                 };
-                self.generation.fetch_add(1, Release);
-                for other in others {
-                    if !::std::sync::Arc::ptr_eq(&other, &me) {
-                        other.notify();
-                    }
+                self.generation.store(my_gen + 1, Release);
+                for (_, other) in mine {
+                    other.notify();
                 }
             } else {
-                while self.generation.load(Acquire) == my_gen {
+                let me = ::std::sync::Arc::new(loom::sync::Notify::new());
+                self.waiters.lock().unwrap().push((my_gen, me.clone()));
+                loop {
                     me.wait();
+                    if self.generation.load(Acquire) > my_gen {
+                        break;
+                    }
                 }
             }
 
@@ -345,6 +351,10 @@ pub mod thread {
         let notify = ME.with(|me| me.notify.clone());
         notify.wait();
     }
+
+    /// Test helper: nothing to do (a pending token is harmless); kept so that
+    /// conformance scripts read the same on both backends.
+    pub fn park_consume_for_test() {}
 
     pub fn spawn<F, T>(f: F) -> JoinHandle<T>
     where
